@@ -117,7 +117,7 @@ VRelease(h, L) ==
       buffering == fs # {} /\ BitSet(f.aa, ACT_BUFF)
       pdrs == PdrsOfFar(h, sd, o.id)
       \* after the request's own IEs the FAR may carry new tunnel parameters: either set is accepted, consistently
-      f2 == CHOOSE x \in FarOf(ApplyOps(h, sd, e.ops), sd, o.id) : TRUE
+      f2 == IF FarOf(ApplyOps(h, sd, e.ops), sd, o.id) = {} THEN f ELSE CHOOSE x \in FarOf(ApplyOps(h, sd, e.ops), sd, o.id) : TRUE
       \* which PDR's queue holds a payload (payloads are unique per burst): computed once per PDR
       held == [p \in {x.id : x \in pdrs} |-> Rng(QOf(h, sd, p))]
       owner(g) == {p \in DOMAIN held : g.payload \in held[p]}
@@ -173,8 +173,9 @@ VTick(h, L) ==
          "C15:periodic reports of a session not delivered in exactly one report to its SMF"),
        V(Len(srrs) = Cardinality(seids), "C15:number of periodic session reports differs from the number of sessions with registered URRs"),
        V(\A o \in Rng(srrs) : \A r \in Rng(o.rpts) : BitSet(r.trig, TRIG_PERIO), "C15:periodic report not marked periodic"),
-       V(\A sd \in seids : LET o == CHOOSE o \in Rng(srrs) : o.seid = SessOf(h, sd).cp /\ o.to = NodePeer(SessOf(h, sd).node)
-                           IN {r.urr : r \in Rng(o.rpts)} = {x.id : x \in {y \in reg : y.seid = sd}} /\ Len(o.rpts) = Cardinality({y \in reg : y.seid = sd}),
+       \* (existence of the session's report is the clause above; no CHOOSE here: a missing report must be a verdict, not an evaluation error)
+       V(\A sd \in seids : \A o \in Rng(srrs) : (o.seid = SessOf(h, sd).cp /\ o.to = NodePeer(SessOf(h, sd).node)) =>
+            ({r.urr : r \in Rng(o.rpts)} = {x.id : x \in {y \in reg : y.seid = sd}} /\ Len(o.rpts) = Cardinality({y \in reg : y.seid = sd})),
          "C15:a registered URR's periodic report is missing or duplicated") }
 \* one ticker per period that has a registered URR
 VTickers(h2, L) ==
@@ -220,6 +221,42 @@ VKernel(h2, L) ==
        V(mine \subseteq want, "C01:the kernel holds a rule its session did not request by a Create IE, or has removed"),
        V({k \in want : k[1] \in {"pdr", "far"}} \subseteq K, "C02:a PDR or FAR created by the SMF is missing from the kernel"),
        V({k \in want : k[1] \in {"qer", "urr"}} \subseteq K, "C03:a QER or URR created by the SMF is missing from the kernel") }
+
+\* ------------------------------------------------------------------ lock-step: what the ideal model predicts for a step
+\* (UpfL2 attaches the projection of its own step record to every event of a printed path; Trace_L2 compares it with the
+\* projection of the recorded step; one model packet stands for PktScale real packets, so bags become sets and counts scale)
+POutL2(o) == [to |-> o.to, mt |-> o.mt, seq |-> IF o.mt = MT_SRREQ THEN 0 ELSE o.seq, seid |-> o.seid, cause |-> o.cause,
+              fseid |-> o.fseid, rtype |-> o.rtype, dldr |-> o.dldr,
+              rpts |-> SetToSeq({[urr |-> r.urr, trig |-> r.trig] : r \in Rng(o.rpts)})]
+PGpL2(g) == [to |-> g.to, teid |-> g.teid, ext |-> g.ext, qfi |-> g.qfi]
+ProjL2(L) == [out |-> SetToSeq({POutL2(o) : o \in Rng(L.out)}),
+              gp |-> SetToSeq({PGpL2(g) : g \in Rng(L.gpdu)}), ngp |-> Len(L.gpdu),
+              mq |-> SetToSeq(Rng(FlattenSeq(L.mq))),
+              queues |-> SetToSeq({q \in Rng(L.queues) : q.len > 0}), tickers |-> L.tickers,
+              krules |-> SetToSeq(Rng(L.krules))]
+SameL2(x, L, scale) ==
+  /\ {[y EXCEPT !.rpts = Rng(y.rpts)] : y \in Rng(x.out)} = {[y EXCEPT !.rpts = Rng(y.rpts)] : y \in {POutL2(o) : o \in Rng(L.out)}}
+  /\ Rng(x.gp) = {PGpL2(g) : g \in Rng(L.gpdu)} /\ Len(L.gpdu) = x.ngp * scale
+  /\ Rng(x.mq) = Rng(FlattenSeq(L.mq))
+  /\ {[q EXCEPT !.len = @ * scale] : q \in Rng(x.queues)} = {q \in Rng(L.queues) : q.len > 0}
+  /\ x.tickers = L.tickers
+  /\ Rng(x.krules) = Rng(L.krules)
+WhatL2(x, L, scale) ==
+  IF {[y EXCEPT !.rpts = Rng(y.rpts)] : y \in Rng(x.out)} # {[y EXCEPT !.rpts = Rng(y.rpts)] : y \in {POutL2(o) : o \in Rng(L.out)}} THEN "datagrams"
+  ELSE IF ~(Rng(x.gp) = {PGpL2(g) : g \in Rng(L.gpdu)} /\ Len(L.gpdu) = x.ngp * scale) THEN "re-injected packets"
+  ELSE IF Rng(x.mq) # Rng(FlattenSeq(L.mq)) THEN "URRs queried"
+  ELSE IF {[q EXCEPT !.len = @ * scale] : q \in Rng(x.queues)} # {q \in Rng(L.queues) : q.len > 0} THEN "buffer queues"
+  ELSE IF x.tickers # L.tickers THEN "period tickers"
+  ELSE "kernel rule tables"
+
+DiffL2(x, L, scale) ==
+  LET w == WhatL2(x, L, scale) IN
+  CASE w = "datagrams" -> [model |-> x.out, code |-> SetToSeq({POutL2(o) : o \in Rng(L.out)})]
+    [] w = "re-injected packets" -> [model |-> <<x.ngp * scale>> \o x.gp, code |-> <<Len(L.gpdu)>> \o SetToSeq({PGpL2(g) : g \in Rng(L.gpdu)})]
+    [] w = "URRs queried" -> [model |-> x.mq, code |-> FlattenSeq(L.mq)]
+    [] w = "buffer queues" -> [model |-> x.queues, code |-> L.queues]
+    [] w = "period tickers" -> [model |-> <<x.tickers>>, code |-> <<L.tickers>>]
+    [] OTHER -> [model |-> x.krules, code |-> L.krules]
 
 \* ------------------------------------------------------------------ verdict and ghost update
 SessEnds(h, L) ==
